@@ -255,12 +255,23 @@ def main():
     # the tie to the code / direct predicate / search
     try:
         res = mod.run(ctx)
-    except Exception:
-        traceback.print_exc()
-        print("INTERNAL ERROR: harness crashed")
-        res = {"evaluations": 0, "distinct_nontrivial": 0, "rule": "harness crashed",
-               "samples": [], "violations": []}
-        internal_error = True
+    except Exception as ex:
+        tb = traceback.extract_tb(sys.exc_info()[2])
+        in_repo = [f for f in tb if f.filename.startswith(REPO + os.sep)]
+        if in_repo:
+            # the implementation raised on an input the harness built: that is a finding about
+            # the code, not about the machinery
+            res = {"evaluations": 1, "distinct_nontrivial": 0, "rule": "harness aborted by an exception raised in the implementation",
+                   "samples": [], "violations": [{"kind": "implementation raised", "error": repr(ex)[:500],
+                                                  "where": f"{in_repo[-1].filename}:{in_repo[-1].lineno} ({in_repo[-1].name})",
+                                                  "harness_frame": f"{tb[1].filename}:{tb[1].lineno}" if len(tb) > 1 else "",
+                                                  "finding_class": None}]}
+        else:
+            traceback.print_exc()
+            print("INTERNAL ERROR: harness crashed")
+            res = {"evaluations": 0, "distinct_nontrivial": 0, "rule": "harness crashed",
+                   "samples": [], "violations": []}
+            internal_error = True
 
     known = load_known()
     violations = list(res.get("violations", []))
